@@ -136,6 +136,7 @@ func (s *Segment) dictionary(field string) (rv *Dictionary, err error) {
 			var ok bool
 			s.m.Lock()
 			if rv.fst, ok = s.fieldFSTs[rv.fieldID]; !ok {
+				verifGate("fst:load")
 				// read the length of the vellum data
 				var vellumLenData []byte
 				vellumLenData, err = s.data.Read(int(dictStart), int(dictStart+binary.MaxVarintLen64))
